@@ -44,11 +44,11 @@ def run(chk: core.Check, tier: str, seed: int) -> None:
             del self.function_extensions["match"]
             del self.function_extensions["search"]
 
-    keep = [Sparse(), probes.make_env(jp, [("length", ["N"], "L"), ("count", ["V", "V"], "N"), ("value", [], "L")], [])]
+    fresh = jp.JSONPathEnvironment()
+    keep = [probes.make_env(jp, [("length", ["N"], "L"), ("count", ["V", "V"], "N"), ("value", [], "L")], []), Sparse()]
     n = 12000 if tier == "quick" else 250000
     cands = list(dict.fromkeys(corpus.SEEDS + EXTRA + corpus.repo_test_queries() + corpus.literal_queries() + corpus.skeletons(rng) + corpus.valid_candidates(rng, n)))
     common.t1_check(chk, [t for t in (corpus.SEEDS + EXTRA + rng.sample(cands, 500 if tier == "quick" else 15000)) if len(t) <= 60], "c03_t1")
-    fresh = jp.JSONPathEnvironment()
     recs = [impl.rec_compile(jp, q, env=(fresh if k % 7 == 0 else None)) for k, q in enumerate(cands)]
     del keep
     for r in recs:
